@@ -55,9 +55,12 @@ def drvLoc : Loc := ⟨[], [], [], [], [], [], [], [], []⟩
 def connLetter : Conn → String
   | .new => "N" | .handshaking => "H" | .connected => "C" | .failed => "F" | .closed => "X"
 
+/-- sealed records also show the explicit nonce that goes on the wire (the 64-bit epoch‖seq value) -/
+def nonceTag (w : WRec) : String := if w.sealed then ".n" ++ hex (be64 (fullSeq w.epoch w.seq)) else ""
+
 def descr (w : WRec) : String :=
-  if w.ctype = dtlsCtApplicationData ∨ w.ctype = dtlsCtAlert then s!"{w.ctype}.{w.epoch}.{w.seq}.{w.plain.length}"
-  else s!"{w.ctype}.{w.epoch}.{w.seq}"
+  if w.ctype = dtlsCtApplicationData ∨ w.ctype = dtlsCtAlert then s!"{w.ctype}.{w.epoch}.{w.seq}.{w.plain.length}{nonceTag w}"
+  else s!"{w.ctype}.{w.epoch}.{w.seq}{nonceTag w}"
 
 def showOuts (e : Ep) (outs : List Out) : String :=
   let del := outs.filterMap fun o => match o with | .deliver p => some (hex p) | _ => none
@@ -135,11 +138,10 @@ def handle (stream : String) (args : List String) : String :=
       let t0 : Tx := { epoch, next := first, log := [] }
       let t := t0.run ((List.range n).map Who.app)
       let t' := if close = 1 then t.alloc .alert else t
-      let seqs := (t.log.map (·.seq)).reverse
+      let seqs := (t'.log.map (·.seq)).reverse
       let lo := seqs.head?.getD first
       let hi := seqs.getLast?.getD first
-      let alert := if close = 1 then s!"{epoch}:{(t'.log.head?.map (·.seq)).getD 0}" else "-"
-      if n = 0 then s!"{epoch}:- alert={alert}" else s!"{epoch}:{lo}-{hi}/{seqs.length} alert={alert}"
+      if seqs.isEmpty then s!"{epoch}:- alert={close}" else s!"{epoch}:{lo}-{hi}/{seqs.length} alert={close}"
     | _ => "bad-args"
   | "pub", [a] =>
     -- `pub <point>,<E>,<S>`: a sender that runs a whole send() right after publication statement <point>
